@@ -392,6 +392,23 @@ def check_eq_hash_dup(ctx, rng, t, tok, desc):
         elif eq and hash(tok) != hash(tok2):
             ctx.violation('C23:hash:equal-tokens-different-hash',
                           f'equal tokens {t} / {t2} hash differently', desc)
+    # the same fields given in another order (keyword order is not part
+    # of an identifier)
+    ks = [k for k in t]
+    rng.shuffle(ks)
+    tok_sh, exc = _call(lambda: Tokens(**{k: t[k] for k in ks}))
+    ctx.count('eq_hash_checks', 2)
+    ctx.count('oracle_evals', 2)
+    if ks != [k for k in t]:
+        ctx.count('fields_given_in_another_order')
+    if exc is not None or not (tok_sh == tok) or tok_sh != tok:
+        ctx.violation('C23:eq:field-order',
+                      f'Tokens built from {ks} differs from the one built '
+                      f'from {list(t)}: {exc!r}', desc)
+    elif hash(tok_sh) != hash(tok):
+        ctx.violation('C23:hash:equal-tokens-different-hash',
+                      f'equal tokens hash differently when the fields '
+                      f'{t} are given in the order {ks}', desc)
     # duplicate
     dup, exc = _call(tok.duplicate)
     ctx.count('duplicate_checks')
@@ -420,6 +437,10 @@ def check_eq_hash_dup(ctx, rng, t, tok, desc):
         ctx.violation('C23:duplicate:mutated-original',
                       f'duplicate({key}={newv!r}) changed the original {t}',
                       desc)
+    elif hash(dup2) != hash(Tokens(**exp)) or dup2 != Tokens(**exp):
+        ctx.violation('C23:hash:equal-tokens-different-hash',
+                      f'duplicate({key}={newv!r}) of {t} is not the same '
+                      f'dictionary key as Tokens(**{exp})', desc)
     elif (dup2 == tok) != (exp == norm(t)):
         ctx.violation('C23:duplicate:eq-after-change',
                       f'duplicate({key}={newv!r}) == original is '
